@@ -114,6 +114,38 @@ fn predict_obs(bytes: &[u8], texts: &[String]) -> Value {
     }
 }
 
+/// A large well-formed model (n distinct character unigrams under window 255: 510 weights each), built directly as bytes;
+/// reports how the reader and the slice reader treat it (digests only: the file has tens of megabytes).
+pub fn big_event(n: usize) -> Value {
+    let mut m = MModel { cng: Vec::with_capacity(n), tng: vec![], dict: vec![], bias: -7, cw: 255, tw: 1, tags: vec![] };
+    for i in 0..n {
+        let c = char::from_u32(0x10000 + i as u32).unwrap();
+        let w: Vec<i32> = (0..510).map(|k| ((i + k) % 23) as i32 - 11).collect();
+        m.cng.push(MNgram { ngram: c.to_string(), weights: w });
+    }
+    let bytes = mmodel_bytes(&m);
+    drop(m);
+    let l = bytes.len();
+    let mut rd = ScriptedReader { data: &bytes, pos: 0, chunk: 1 << 16, intr: 0, calls: 0, fail_at: None };
+    let (roc, rm) = outcome_model(catch_unwind(AssertUnwindSafe(|| Model::read(&mut rd))));
+    let consumed = rd.pos;
+    let same = |m: &Option<Model>| match m {
+        Some(m) => catch_unwind(AssertUnwindSafe(|| m.to_vec().map(|v| v == bytes).unwrap_or(false))).unwrap_or(false),
+        None => false,
+    };
+    let rsame = same(&rm);
+    drop(rm);
+    let r = catch_unwind(|| Model::read_slice(&bytes).map(|(m, rest)| (m, rest.len())));
+    let (soc, sm, rest_len) = match r {
+        Ok(Ok((m, rl))) => ("ok", Some(m), rl as i64),
+        Ok(Err(_)) => ("err", None, -1),
+        Err(_) => ("panic", None, -1),
+    };
+    let ssame = same(&sm);
+    json!({"file": format!("big{n}"), "op": "big", "len": l, "ngrams": n, "read_outcome": roc, "consumed": consumed, "reader_same": rsame,
+           "slice_outcome": soc, "slice_same": ssame, "rest_len": rest_len})
+}
+
 /// files <models.ndjson> <out.ndjson> <full:0|1> [extra model file ...]
 /// models.ndjson: one {"model": <json>, "texts": [[cp]..]} per line
 pub fn run(args: &[String]) {
@@ -173,10 +205,14 @@ pub fn run(args: &[String]) {
             };
             emit(&mut out, json!({"file": name, "op": "read_slice_full", "len": l, "trail": trail, "outcome": oc,
                                   "rest": rest, "bytes": bytes, "reser": rs, "pred": same_pred}));
-            let mut rd = ScriptedReader { data: &data, pos: 0, chunk: usize::MAX, intr: 0, calls: 0, fail_at: None };
-            let (oc, m) = outcome_model(catch_unwind(AssertUnwindSafe(|| Model::read(&mut rd))));
-            emit(&mut out, json!({"file": name, "op": "read_full", "len": l, "trail": trail, "outcome": oc,
-                                  "consumed": rd.pos, "bytes": bytes, "reser": reser(&m)}));
+            // the complete file through readers that deliver it in pieces (first piece shorter than / as long as / one longer
+            // than the 25-byte header; single bytes; interrupted calls): same model, exactly the file consumed
+            for (chunk, intr) in [(usize::MAX, 0usize), (1, 0), (3, 2), (7, 3), (24, 0), (25, 0), (26, 5)] {
+                let mut rd = ScriptedReader { data: &data, pos: 0, chunk, intr, calls: 0, fail_at: None };
+                let (oc, m) = outcome_model(catch_unwind(AssertUnwindSafe(|| Model::read(&mut rd))));
+                emit(&mut out, json!({"file": name, "op": "read_full", "len": l, "trail": trail, "chunk": chunk.min(99), "intr": intr,
+                                      "outcome": oc, "consumed": rd.pos, "bytes": bytes, "reser": reser(&m)}));
+            }
         }
         // 2. writer: plain, chunked, interrupted; the bytes must be the same as to_vec
         for (chunk, intr) in [(usize::MAX, 0usize), (1, 0), (3, 2), (7, 3)] {
@@ -229,6 +265,12 @@ pub fn run(args: &[String]) {
                 let (oc, _) = outcome_model(catch_unwind(AssertUnwindSafe(|| Model::read(&mut rd))));
                 emit(&mut out, json!({"file": name, "op": "header_read", "len": l, "pos": pos, "outcome": oc}));
             }
+        }
+    }
+    // 5. one large model (VERIF_BIG_NGRAMS unigrams, window 255)
+    if let Some(n) = std::env::var("VERIF_BIG_NGRAMS").ok().and_then(|x| x.parse::<usize>().ok()) {
+        if n > 0 {
+            emit(&mut out, big_event(n));
         }
     }
     out.flush().unwrap();
